@@ -609,6 +609,10 @@ class SeedCoherenceAnalyzer(object):
             e_s += "spectral estimation method must be welch"
             raise ValueError(e_s)
 
+        # Get the sampling rate from the seed time-series (not only when the
+        # frequencies are asked for):
+        self.method['Fs'] = self.method.get('Fs', self.seed.sampling_rate)
+
         #Additional parameters for the coherency estimation:
         self.lb = lb
         self.ub = ub
